@@ -74,6 +74,10 @@ func extras() []gen.Decl {
 		raw(`#D: {x: int, y: *x | string}`),
 		// open structs that consist of one embedding / one reference plus `...`
 		lab("a", "{#D, ...}", "#D"), lab("a", "#D & {...}", "#D"), lab("#E", "{#D, ...}", "#D"),
+		// struct literals that are not the value of a field (list elements,
+		// disjuncts, comprehension bodies) with two declarations of one label
+		raw(`le: [{x?: int, x: 1}]`), raw(`le2: [{x!: int, x: 3}]`), raw(`ld: *{x?: string, x: "v"} | null`), raw(`lc: [for v in [1, 2] {n?: int, n: v}]`),
+		raw(`le3: [{p: q?: int, p: q: 1}]`),
 		lab("c", "#E & {zz: 1}", "#E"), lab("c", "a & {zz: 1}", "a"), lab("a", "{b, ...}", "b"), lab("b", "close({x: 1})", ""),
 	}
 }
